@@ -422,6 +422,30 @@ def r53_54(db, ctx):
                         for _, tg in g.calls():
                             if (g.callee_short(tg) or '').endswith('Symbol::from_ascii') and norm(Rg.operand(tg['args'][0])) in (('p', 2), ('fld', ('p', 2), '0')):
                                 rs_ok = True
+            if not rs_ok:
+                # `let p = seq.iter().position(|&c| from_ascii(c).is_err()); if let Some(p) = p { from_ascii(seq[p])?; }`: the first byte
+                # (in input order, over the whole input) that from_ascii rejects is the one whose error is returned
+                from lm import reduce as RD
+                RC = RD.RCanon(db, f, R)
+                for bi, t in f.calls():
+                    if not (f.callee_short(t) or '').endswith('Iterator::position') or len(t['args']) != 2:
+                        continue
+                    e_ = norm(R.call(t))
+                    Lp = RD._fresh()
+                    el = RC.elem_of(e_[2][0], Lp)
+                    if el is None or el[0] != ('at', ('p', 1), ('pos', Lp)) or el[1] != [('len', ('p', 1))]:
+                        continue
+                    pred = RD.apply_fn(db, e_[2][1], [el[0]])
+                    if pred is None or m(('call~', 'Result::is_err', (('call~', 'Symbol::from_ascii', (el[0],)),)), RC.canon(pred)) is None:
+                        continue
+                    # the reported error: from_ascii(seq[(position(..) as Some).0])
+                    for bi2, t2 in rescans:
+                        a_ = norm(R.at(bi2).operand(t2['args'][0]))
+                        mm = m(('idx', ('p', 1), ('fld', ('down', '$pos', 'Some'), '0')), a_)
+                        if mm is None:
+                            mm = m(('call~', '::index', (('p', 1), ('fld', ('down', '$pos', 'Some'), '0'))), a_)
+                        if mm is not None and norm(mm['$pos']) == e_ and f.dominates(bi, bi2):
+                            rs_ok = True
             # the `?`: an Err return reachable from the rescan
             errs = [bi for bi, blk in enumerate(f.blocks) for st in blk['stmts'] if st['k'] == 'assign' and st['p']['l'] == 0 and st['rv']['k'] == 'agg' and st['rv'].get('variant') == 'Err']
             prop = bool(errs) or any((f.callee_short(t) or '').endswith('from_residual') and t['dest']['l'] == 0 for _, t in f.calls())
